@@ -194,7 +194,8 @@ pub fn d1_coords(fmt: &Fmt, reduced: bool) -> Vec<Coord> {
 }
 
 fn structure_want() -> Want {
-    Want::structure_only()
+    // structure, plus the tilemap attributes and lookups (no images)
+    Want { tilemaps: true, ..Want::structure_only() }
 }
 
 pub fn run(ctx: &Ctx) -> i32 {
